@@ -228,6 +228,6 @@ func runAtomic(c *ctx) error {
 		os.Remove(file + "-wal")
 		os.Remove(file + "-shm")
 	}
-	c.res.Rule = "per round a fresh SQLite file and one device; 4..12 goroutines call Storage.NextFCntDn 40 (150) times each, then all of them AdvanceFCntUp with one counter value for 8 (30) successive values, then AddDevNonce with one nonce for 6 (20) nonces; every second round with two goroutines reading the device row all the time; a class is (number of goroutines, readers)"
+	c.res.Rule = "per round a fresh SQLite file and one device; 4..12 goroutines call Storage.NextFCntDn 40 (150) times each, then all of them AdvanceFCntUp with one counter value for 8 (30) successive values, then AddDevNonce with one nonce for 6 (20) nonces; every second round with two goroutines reading the device row all the time; at the end of every round NextFCntDn is called three times while a second connection to the file holds an open read cursor (the commit cannot go through), the store is abandoned and reopened, and the stored counter is compared with what was handed out; a class is (number of goroutines, readers)"
 	return nil
 }
